@@ -484,8 +484,13 @@ class WsgiApplication(HttpBase):
         # here before serialization as the user function can also set output
         # protocol. Is there a better way?
         if is_generator:
-            first_obj = next(g)
-            p_ctx.out_object = ( chain((first_obj,), g), )
+            try:
+                first_obj = next(g)
+                p_ctx.out_object = ( chain((first_obj,), g), )
+
+            except StopIteration:
+                # a generator that yields nothing is an empty sequence
+                p_ctx.out_object = ( iter(()), )
 
         if p_ctx.transport.resp_code is None:
             p_ctx.transport.resp_code = HTTP_200
